@@ -227,6 +227,10 @@ def plan(prop, tier):
         if prop == "C12":
             fams.append(("share2_push", scen.with_bounds(scen.share_g("push"), "share", sinks=["probe", "probe"],
                                                         maxData=2, maxTop=5, maxPull=1, allowFail=True), None))
+            # sinks that make each other attach / detach from inside their handlers (cross-sink nesting)
+            fams.append(("share3_cross", scen.with_bounds(scen.share_g("push"), "share", sinks=["probe", "probe", "probe"],
+                                                         maxData=2, maxTop=4, maxPull=0, allowFail=False, burst=False,
+                                                         cross=True), None))
             fams.append(("share3_push", scen.with_bounds(scen.share_g("push"), "share",
                                                         sinks=["probe", "probe", "probe"], maxData=1,
                                                         maxTop=4 if q else 5, maxPull=0, allowFail=False), None))
